@@ -19,7 +19,8 @@ SPECS = {
     "dfaconflict": 'grammar calc;\nAA = /[a-z]+/;\nBB = /[a-x]+/;\nstart = AA BB;\n',
     "lalrconflict": 'grammar calc;\nstart = e;\ne = e "+" e | "x";\n',
 }
-NAMES = {"valid": "pkgx", "invalid": "9bad", "keyword": "func"}
+NAMES = {"valid": "pkgx", "invalid": "9bad", "keyword": "func", "hyphen": "my-lang", "dot": "lang.v2", "space": "calc 2", "slash": "sub/pkgx",
+         "underscore": "_x1"}
 
 
 def snapshot(root):
@@ -54,6 +55,8 @@ def run_one(args):
     eff_outstate = "dir" if cfg["outflag"] == "default" else cfg["outstate"]
     name = NAMES.get(cfg["nameflag"], "type" if cfg["input"] == "validkw" else "calc")
     pkg = os.path.join(outdir, name)
+    if eff_outstate == "dir" and "/" in name:
+        os.makedirs(os.path.dirname(pkg), exist_ok=True)       # the intermediate directory of a name with a slash exists
     if eff_outstate == "dir":
         if cfg["pkgstate"] == "dir":
             os.makedirs(pkg)
@@ -119,7 +122,7 @@ def run_one(args):
 def reference_hashes(ck, binary):
     """the bytes of a complete package, from one clean run per package name"""
     ref = {}
-    for inp, name in (("valid", "calc"), ("valid", "pkgx"), ("validkw", "type")):
+    for inp, name in (("valid", "calc"), ("valid", "pkgx"), ("validkw", "type"), ("valid", "_x1")):
         d = os.path.join(ck.work, "cli", "ref-" + name)
         os.makedirs(d)
         open(os.path.join(d, "g.ebnf"), "w").write(SPECS[inp])
